@@ -626,6 +626,10 @@ class Runner:
         """returns (header lines, records, exit code, error text)"""
         chk = self.chk
         self.n_runs += 1
+        if self.n_runs % 2 == 0 and "--ploidy" in argv and os.path.isfile(argv[argv.index("--ploidy") + 1]):
+            # every second run reads the ploidies from a cohort-wide file that also lists samples outside the run
+            argv = with_ploidy(argv, cohort_ploidy_file(ds, self.work, f"{id(ds) % 100000}"))
+            chk.count("run:cohort-wide-ploidy-file")
         with open(os.path.join(self.work, "current_run.json"), "w") as f:
             json.dump({"program": program, "argv": argv}, f)
         with Capture() as cap:
@@ -821,6 +825,20 @@ def pedigree_file(r, ds, work, k):
     ped = S.write_text(os.path.join(work, f"ped{k}.txt"), "\n".join(lines) + "\n")
     tau = S.write_text(os.path.join(work, f"tau{k}.txt"), "\n".join(taus) + "\n")
     return ped, tau
+
+
+def cohort_ploidy_file(ds, work, tag):
+    """a ploidy file shared by a whole cohort: the run's samples plus two that are not part of the run"""
+    path = os.path.join(work, f"ploidy_cohort_{tag}.tsv")
+    with open(path, "w") as f:
+        f.write("NOT_IN_RUN_A\t6\n" + open(ds.ploidy_file).read() + "NOT_IN_RUN_B\t2\n")
+    return path
+
+
+def with_ploidy(argv, path):
+    argv = list(argv)
+    argv[argv.index("--ploidy") + 1] = path
+    return argv
 
 
 def dataset_runs(rn, ds, k, tier, plan):
